@@ -92,6 +92,11 @@ func c16Arg(c *fw.Case, kind string, feats *[]string) any {
 		if c.Chance(0.05) {
 			return gen.Pick(c.R, []int64{math.MaxInt64, math.MaxInt64 - 1, 1 << 53, 1<<53 + 1})
 		}
+		if c.Chance(0.04) {
+			// unsigned integers beyond the int64 range
+			*feats = append(*feats, "arg.uint.huge")
+			return gen.Pick(c.R, []any{uint64(math.MaxUint64), uint64(1) << 63, uint64(1)<<63 + 2048, uint(math.MaxUint64), uint64(math.MaxInt64) + 1, uint64(18446744073709549568)})
+		}
 		if c.Chance(0.25) {
 			// an integer is an integer whatever Go type the caller holds it in
 			n := c.Intn(1000000)
